@@ -31,8 +31,7 @@ def run(tier):
         if "Invariant Recombines is violated" not in r.out:
             raise vlib.Infra("GlvDecompose variant %s was not rejected: invariants vacuous?" % bad)
     # unbounded (TLAPS): the decomposition recombines for every scalar, every rounding and every parameter set satisfying the identities MC_Consts checks
-    t0 = __import__("time").time(); nob, _ = vlib.tlapm("GlvTheorem")
-    run.mc_runs.append({"module": "GlvTheorem", "role": "TLAPS proof (tlapm, Z3): GlvRecombines, PowXRecombines", "obligations_proved": nob, "wall_s": round(__import__("time").time() - t0, 1)})
+    vlib.tlapm_note(run, "GlvTheorem", "TLAPS proof (tlapm, Z3): GlvRecombines, PowXRecombines")
     # the multiplication loops themselves (table fill, digit-driven double/add, the interleaved two- and four-scalar loops with their index
     # bounds and sign rules) on a group where the answer is an integer: every scalar of the accepted width; broken variants must be rejected
     for cfg in (["single_b8w4", "single_b10w2", "glv_x4", "powx_x5"] if tier == "quick" else
